@@ -439,6 +439,7 @@ func wlRunWorker(args []string) int {
 		r := w.Ops[i].Run(st)
 		vsrv.Quiesce()
 		st.Acked = i + 1
+		wlRecordIDs(st)
 		save()
 		fmt.Printf("ACK %d %d %d\n", i, r.Code, vsrv.WriteCount)
 		os.Stdout.Sync()
@@ -454,4 +455,30 @@ func wlRunWorker(args []string) int {
 		os.Exit(0)
 	}
 	return 0
+}
+
+// wlRecordIDs adds every repo id, version id and instance id the manager currently knows to the state's id sets
+// (so that ids of later-deleted objects are remembered).
+func wlRecordIDs(st *wlState) {
+	d := datastore.VerifDump()
+	add := func(stream string, v uint64) {
+		for _, x := range st.IDs[stream] {
+			if x == v {
+				return
+			}
+		}
+		st.id(stream, v)
+	}
+	for _, r := range d.Repos {
+		add("repo", uint64(r.ID))
+		for _, n := range r.Nodes {
+			add("version", uint64(n.Version))
+		}
+		for _, in := range r.Instances {
+			p := strings.Split(in, ":")
+			var id uint64
+			fmt.Sscanf(p[len(p)-1], "%d", &id)
+			add("instance", id)
+		}
+	}
 }
